@@ -267,6 +267,54 @@ fn hostile_compressed(kind: u64, plain: &[u8], par: refmla::Params, level: u32, 
             c[n - 4..].copy_from_slice(&v.to_le_bytes());
             (c, "sizes-length-field")
         }
+        5 => {
+            // a well-formed brotli stream announcing the "large window" extension with 30 window bits and a
+            // first, non-last, uncompressed metablock of 16 bytes: the decoder sizes its ring buffer 1 GiB
+            let mut bits: Vec<u8> = Vec::new();
+            let mut push = |v: u32, n: u32| {
+                for i in 0..n {
+                    bits.push(((v >> i) & 1) as u8);
+                }
+            };
+            push(1, 1); // WBITS: not 16
+            push(0, 3); // ... not 18..24
+            push(1, 3); // ... escape value 1
+            push(0, 1); // large window
+            push(*rng.pick(&[30u32, 29, 28, 27]), 6); // window bits
+            push(0, 1); // ISLAST = 0
+            push(0, 2); // MNIBBLES = 4
+            push(15, 16); // MLEN - 1
+            push(1, 1); // ISUNCOMPRESSED
+            while bits.len() % 8 != 0 {
+                bits.push(0);
+            }
+            let mut out: Vec<u8> = bits.chunks(8).map(|c| c.iter().enumerate().fold(0u8, |a, (i, b)| a | (b << i))).collect();
+            out.extend_from_slice(&[0x42; 16]);
+            // a second non-last uncompressed metablock (so that the decoder cannot tell that the stream is
+            // about to end and keeps the full ring buffer): ISLAST=0, MNIBBLES=4, MLEN-1=15, ISUNCOMPRESSED=1, padding
+            let mut b2: Vec<u8> = Vec::new();
+            let mut push2 = |v: u32, n: u32| {
+                for i in 0..n {
+                    b2.push(((v >> i) & 1) as u8);
+                }
+            };
+            push2(0, 1);
+            push2(0, 2);
+            push2(15, 16);
+            push2(1, 1);
+            while b2.len() % 8 != 0 {
+                b2.push(0);
+            }
+            out.extend(b2.chunks(8).map(|c| c.iter().enumerate().fold(0u8, |a, (i, b)| a | (b << i))));
+            out.extend_from_slice(&[0x43; 16]);
+            out.push(3); // ISLAST + ISEMPTY
+            let sz = out.len() as u32;
+            out.extend_from_slice(&1u64.to_le_bytes());
+            out.extend_from_slice(&sz.to_le_bytes());
+            out.extend_from_slice(&32u32.to_le_bytes());
+            out.extend_from_slice(&16u32.to_le_bytes());
+            (out, "brotli-large-window-header")
+        }
         _ => {
             // a block that decompresses to more than BLOCK (one brotli stream for everything)
             let mut out = Vec::new();
@@ -294,7 +342,7 @@ impl Prop for C08 {
         "fault_enumeration"
     }
     fn rule(&self) -> String {
-        "run = a hostile image derived from a seeded valid archive (all layer sets) by k <= 3 structured faults placed at any of the three layers of the stack: (stored) cut, bit flip, byte substitution, integer-field overwrite with boundary values, encrypted-chunk swap/duplicate/delete/splice, garbage tail, raw PRNG bytes; (inner) the decrypted/decompressed file-layer stream or the compressed stream is mutated on its parsed fields (block type/id/length, every index field, size-table fields: values 0,1,len-1,len,len+1,2^31,2^32-1,2^63,2^64-1...), spans duplicated/deleted/moved, or replaced by a hand-built hostile stream (thousands of index offsets pointing at a foreign block, empty/out-of-range offset lists, degenerate and reused blocks, huge announced lengths, 512 MiB length prefixes, broken length fields, empty size table, last_block_size > BLOCK, huge compressed sizes, block longer than declared) and then re-wrapped by the format model's foreign writer through compression and VALID encryption for the reader's key; the first 3000 quick runs enumerate, on s0 without layers, every single bit flip and every cut of one small archive's stored bytes. Then an operation history that continues after errors: open, list, open+read each listed and each original name with seeded buffers, read after errors, hashes, linear extraction (all / subset), repair in both modes, layer-level seeks (also beyond the end) and reads on a stack that already failed, drop. Oracle per operation: returns Ok or Err - no panic (overflow checks on), the worker process survives (stack overflow, abort), at most 200*len+50000 seam calls, peak live heap above the start of the operation <= 48 MiB + 16*len(image); a single request >= 1 GiB aborts the worker and is reported. evaluations = operations judged; distinct_nontrivial = distinct (variant, layers, fault placement, mutation kinds, operation, outcome class) signatures.".into()
+        "run = a hostile image derived from a seeded valid archive (all layer sets) by k <= 3 structured faults placed at any of the three layers of the stack: (stored) cut, bit flip, byte substitution, integer-field overwrite with boundary values, encrypted-chunk swap/duplicate/delete/splice, garbage tail, raw PRNG bytes; (inner) the decrypted/decompressed file-layer stream or the compressed stream is mutated on its parsed fields (block type/id/length, every index field, size-table fields: values 0,1,len-1,len,len+1,2^31,2^32-1,2^63,2^64-1...), spans duplicated/deleted/moved, or replaced by a hand-built hostile stream (thousands of index offsets pointing at a foreign block, empty/out-of-range offset lists, degenerate and reused blocks, huge announced lengths, 512 MiB length prefixes, broken length fields, empty size table, last_block_size > BLOCK, huge compressed sizes, block longer than declared, brotli large-window header asking for a 1 GiB ring buffer) and then re-wrapped by the format model's foreign writer through compression and VALID encryption for the reader's key; the first 3000 quick runs enumerate, on s0 without layers, every single bit flip and every cut of one small archive's stored bytes. Then an operation history that continues after errors: open, list, open+read each listed and each original name with seeded buffers, read after errors, hashes, linear extraction (all / subset), repair in both modes, layer-level seeks (also beyond the end) and reads on a stack that already failed, drop. Oracle per operation: returns Ok or Err - no panic (overflow checks on), the worker process survives (stack overflow, abort), at most 200*len+50000 seam calls, peak live heap above the start of the operation <= 48 MiB + 16*len(image); a single request >= 1 GiB aborts the worker and is reported. evaluations = operations judged; distinct_nontrivial = distinct (variant, layers, fault placement, mutation kinds, operation, outcome class) signatures.".into()
     }
     fn assumptions(&self) -> Vec<String> {
         vec![
@@ -310,6 +358,19 @@ impl Prop for C08 {
     }
     fn make(&self, seed: u64, run: u64, tier: Tier) -> Case {
         let mut rng = Rng::derive(seed, "C08", run, "gen");
+        if (2970..2984).contains(&run) {
+            // every hand-built hostile compressed stream once on the unmodified build (compression only) and on s1 (both layers)
+            let k = run - 2970;
+            let (variant, layers) = if k < 7 { ("prod", 2u8) } else { ("s1", 3u8) };
+            let cfg = ArcCfg { variant: variant.into(), layers, level: 3, recipients: usize::from(layers & 1 != 0), reader: 0, rng_seed: if variant == "s1" { 9 } else { 0 }, key_seed: 9 };
+            let ops = vec![WOp::Add { name: Name::lit("a"), data: Data::Period { n: 40, p: 7 }, src: Src::exact() }, WOp::Finalize];
+            let mut case = Case::new("C08", cfg, ops);
+            case.params.insert("place".into(), 4);
+            case.params.insert("craft".into(), (k % 7) as i64);
+            case.params.insert("mut_seed".into(), 5);
+            case.params.insert("hist_seed".into(), 23);
+            return case;
+        }
         if (2984..3000).contains(&run) {
             // every hand-built hostile stream once on the unmodified build without layers (full scale:
             // 200 000 index offsets) and once on s1 with both layers
@@ -459,7 +520,7 @@ impl Prop for C08 {
                 }
                 4 => {
                     let plain = layout_of(&base, &case.cfg, par.chunk, par.block).map(|l| l.dec.stream).unwrap_or_default();
-                    let (cs, name) = hostile_compressed(case.param("craft", 0) as u64 % 5, &plain, par, case.cfg.level, &mut mrng);
+                    let (cs, name) = hostile_compressed(case.param("craft", 0) as u64 % 7, &plain, par, case.cfg.level, &mut mrng);
                     kinds.push(format!("crafted:{name}"));
                     let layers = layers | 2;
                     let sp = spec();
